@@ -70,7 +70,7 @@ _PURE_CALLS = {'isinstance', 'issubclass', 'len', 'str', 'repr', 'type', 'hasatt
                'list', 'tuple', 'set', 'dict', 'sorted', 'id', 'any', 'all', 'min', 'max'}
 
 
-def _known_not_none(fn, load, v: str) -> bool:
+def _known_not_none(fn, load, v: str, sentinel=None) -> bool:
     """is the read `load` of local v only reached when `v is not None` has been established?  (an enclosing `if v is not None:` /
     the else of `if v is None:`, an earlier `if v is None: <leave>` in an enclosing block, an earlier `v is not None and ..` operand)"""
     parents = {}
@@ -81,7 +81,8 @@ def _known_not_none(fn, load, v: str) -> bool:
     def is_test(e, positive: bool) -> bool:
         """e being true (positive) / false (not positive) implies v is not None"""
         if isinstance(e, ast.Compare) and len(e.ops) == 1 and isinstance(e.left, ast.Name) and e.left.id == v \
-                and isinstance(e.comparators[0], ast.Constant) and e.comparators[0].value is None:
+                and ((sentinel is None and isinstance(e.comparators[0], ast.Constant) and e.comparators[0].value is None)
+                     or (sentinel is not None and isinstance(e.comparators[0], ast.Name) and e.comparators[0].id == sentinel)):
             return isinstance(e.ops[0], ast.IsNot) if positive else isinstance(e.ops[0], ast.Is)
         if isinstance(e, ast.UnaryOp) and isinstance(e.op, ast.Not):
             return is_test(e.operand, not positive)
@@ -611,20 +612,68 @@ class _Norm(ast.NodeTransformer):
             for st in list(blk):
                 if not (isinstance(st, ast.Assign) and len(st.targets) == 1 and isinstance(st.targets[0], ast.Name)
                         and isinstance(st.value, ast.Call) and isinstance(st.value.func, ast.Attribute) and st.value.func.attr == 'get'
-                        and len(st.value.args) == 1 and not st.value.keywords and _is_chain(st.value.func.value)
+                        and len(st.value.args) in (1, 2) and not st.value.keywords and _is_chain(st.value.func.value)
                         and (_is_chain(st.value.args[0]) or isinstance(st.value.args[0], ast.Constant))):
                     continue
+                # N25b: `v = D.get(K, S)` with S a module-level `S = object()` sentinel, tested with `v is [not] S`
+                sentinel = None
+                if len(st.value.args) == 2:
+                    s_ = st.value.args[1]
+                    if isinstance(s_, ast.Name) and s_.id in _SENTINELS and s_.id not in stored_names:
+                        sentinel = s_.id
+                    elif not (isinstance(s_, ast.Constant) and s_.value is None):
+                        continue
                 v, D, K = st.targets[0].id, st.value.func.value, st.value.args[0]
                 chain_attrs = {n.attr for x in (D, K) for n in ast.walk(x) if isinstance(n, ast.Attribute)}
                 chain_names = {n.id for x in (D, K) for n in ast.walk(x) if isinstance(n, ast.Name)}
-                if chain_attrs & stored_attrs or chain_names & stored_names or _captured(fn, v):
+                # names that only the header of a loop around this statement binds are fixed for the binding and all reads of v,
+                # provided those reads are in the body of that loop too
+                clash = chain_names & stored_names
+                # a name bound exactly once, by a top-level assignment of the function that comes before this statement's top-level
+                # ancestor, has one value from there on.  (These refinements serve the sentinel form only: the None form cannot tell
+                # an absent key from a stored None and stays confined to the tables it was confirmed on.)
+                for nm in (sorted(clash) if sentinel is not None else []):
+                    sts = [n for n in ast.walk(fn) if isinstance(n, ast.Name) and n.id == nm and not isinstance(n.ctx, ast.Load)]
+                    if len(sts) != 1:
+                        continue
+                    tops = [k for k, top in enumerate(fn.body) if isinstance(top, ast.Assign) and any(t is sts[0] for t in top.targets)]
+                    here = [k for k, top in enumerate(fn.body) if any(x is st for x in ast.walk(top))]
+                    if tops and here and tops[0] < here[0] and nm not in {a.arg for a in ast.walk(fn.args) if isinstance(a, ast.arg)}:
+                        clash = clash - {nm}
+                if clash and sentinel is not None:
+                    loops = [lo for lo in ast.walk(fn) if isinstance(lo, ast.For) and any(x is st for b in lo.body for x in ast.walk(b))]
+                    for lo in loops:
+                        tn = {n.id for n in ast.walk(lo.target) if isinstance(n, ast.Name)}
+                        if clash <= tn:
+                            elsewhere = [n for n in ast.walk(fn) if isinstance(n, ast.Name) and n.id in clash
+                                         and not isinstance(n.ctx, ast.Load) and not any(n is t for t in ast.walk(lo.target))]
+                            inside = {id(x) for b in lo.body for x in ast.walk(b)}
+                            v_loads = [n for n in ast.walk(fn) if isinstance(n, ast.Name) and n.id == v]
+                            if not elsewhere and all(id(n) in inside for n in v_loads):
+                                clash = set()
+                            break
+                attr_clash = chain_attrs & stored_attrs
+                if attr_clash and sentinel is not None:
+                    # stores of those attributes that come after the last read of v, outside every loop around the binding, cannot
+                    # come between the binding and a read
+                    order0 = {id(x): k for k, x in enumerate(_dfs(fn))}
+                    v_nodes = [n for n in ast.walk(fn) if isinstance(n, ast.Name) and n.id == v]
+                    last = max([order0.get(id(n), 0) for n in v_nodes] or [0])
+                    loops0 = [lo for lo in ast.walk(fn) if isinstance(lo, (ast.For, ast.While)) and any(x is st for x in ast.walk(lo))]
+                    in_loops = {id(x) for lo in loops0 for x in ast.walk(lo)}
+                    bad = [n for n in ast.walk(fn) if isinstance(n, ast.Attribute) and isinstance(n.ctx, (ast.Store, ast.Del))
+                           and n.attr in attr_clash and (order0.get(id(n), 0) <= last or id(n) in in_loops)]
+                    if not bad:
+                        attr_clash = set()
+                if attr_clash or clash or _captured(fn, v):
                     continue
                 stores = [n for n in ast.walk(fn) if isinstance(n, ast.Name) and n.id == v and not isinstance(n.ctx, ast.Load)]
                 if len(stores) != 1:
                     continue
                 tests = [c for c in ast.walk(fn) if isinstance(c, ast.Compare) and len(c.ops) == 1 and isinstance(c.ops[0], (ast.Is, ast.IsNot))
-                         and isinstance(c.left, ast.Name) and c.left.id == v and isinstance(c.comparators[0], ast.Constant)
-                         and c.comparators[0].value is None]
+                         and isinstance(c.left, ast.Name) and c.left.id == v
+                         and ((sentinel is None and isinstance(c.comparators[0], ast.Constant) and c.comparators[0].value is None)
+                              or (sentinel is not None and isinstance(c.comparators[0], ast.Name) and c.comparators[0].id == sentinel))]
                 loads = [n for n in ast.walk(fn) if isinstance(n, ast.Name) and n.id == v and isinstance(n.ctx, ast.Load)]
                 order = {id(x): k for k, x in enumerate(_dfs(fn))}
                 if not tests or any(order.get(id(n), 0) <= order.get(id(st), 0) for n in loads):
@@ -632,7 +681,7 @@ class _Norm(ast.NodeTransformer):
                 # which reads know that the key was there?  Those under a `v is not None` guard: only they may become D[K];
                 # the others read D.get(K) (None when the key is absent), exactly as before
                 test_ids = {id(c.left) for c in tests}
-                guarded = {id(n) for n in loads if id(n) not in test_ids and _known_not_none(fn, n, v)}
+                guarded = {id(n) for n in loads if id(n) not in test_ids and _known_not_none(fn, n, v, sentinel)}
                 for c in tests:
                     op = ast.In() if isinstance(c.ops[0], ast.IsNot) else ast.NotIn()
                     new = ast.copy_location(ast.Compare(copy.deepcopy(K), [op], [copy.deepcopy(D)]), c)
@@ -1865,8 +1914,23 @@ def _compute_nonnull_results(tree: ast.Module):
     _NONNULL_RESULTS[0] = out - seen_other
 
 
+_SENTINELS: set = set()
+
+
+def _compute_sentinels(tree: ast.Module):
+    """module-level `NAME = object()` bound once: a value nothing else can be identical to"""
+    _SENTINELS.clear()
+    stores = [n.id for n in ast.walk(tree) if isinstance(n, ast.Name) and not isinstance(n.ctx, ast.Load)]
+    for st in tree.body:
+        if isinstance(st, ast.Assign) and len(st.targets) == 1 and isinstance(st.targets[0], ast.Name) and isinstance(st.value, ast.Call) \
+                and isinstance(st.value.func, ast.Name) and st.value.func.id == 'object' and not st.value.args and not st.value.keywords \
+                and stores.count(st.targets[0].id) == 1:
+            _SENTINELS.add(st.targets[0].id)
+
+
 def normalize(tree: ast.Module, ext=None) -> ast.Module:
     _compute_mutable_attrs(tree)
+    _compute_sentinels(tree)
     _compute_nonnull_results(tree)
     tree = propagate_module_constants(tree, ext)
     from .normalize2 import pre_normalize
